@@ -625,6 +625,77 @@ func queries64(t *rapid.T, x *m64, fail func(string, ...interface{})) {
 		}
 		mpos += want
 	}
+	// reusable iterator objects: Initialize on another bitmap in the middle of a traversal starts afresh
+	{
+		other := roaring64.BitmapOf(3, 1<<32+7, 1<<40)
+		other.AddRange(5<<32-100, 5<<32+200)
+		var it roaring64.IntIterator64
+		it.Initialize(other)
+		for i := uint64(0); i < take%7 && it.HasNext(); i++ {
+			it.PeekNext()
+			it.Next()
+		}
+		if it.HasNext() {
+			it.PeekNext()
+		}
+		it.Initialize(b)
+		for i := uint64(0); i < n && i < 2000; i++ {
+			w, _ := m.Select(i)
+			if !it.HasNext() {
+				fail("#%d re-initialized IntIterator64 ends after %d of %d values", x.id, i, n)
+			}
+			if g := it.PeekNext(); g != w {
+				fail("#%d re-initialized IntIterator64: PeekNext at position %d = %d want %d", x.id, i, g, w)
+			}
+			if g := it.Next(); g != w {
+				fail("#%d re-initialized IntIterator64: value %d = %d want %d", x.id, i, g, w)
+			}
+		}
+		if n > 0 {
+			var it2 roaring64.IntIterator64
+			it2.Initialize(other)
+			it2.PeekNext()
+			it2.Initialize(b)
+			mid, _ := m.Select(n / 2)
+			it2.AdvanceIfNeeded(mid)
+			if !it2.HasNext() || it2.PeekNext() != mid {
+				fail("#%d re-initialized IntIterator64: AdvanceIfNeeded(%d) does not land on %d", x.id, mid, mid)
+			}
+		}
+		var rit roaring64.IntReverseIterator64
+		rit.Initialize(other)
+		if rit.HasNext() {
+			rit.Next()
+		}
+		rit.Initialize(b)
+		for i := uint64(0); i < n && i < 2000; i++ {
+			w, _ := m.Select(n - 1 - i)
+			if !rit.HasNext() {
+				fail("#%d re-initialized IntReverseIterator64 ends after %d of %d values", x.id, i, n)
+			}
+			if g := rit.Next(); g != w {
+				fail("#%d re-initialized IntReverseIterator64: value %d = %d want %d", x.id, i, g, w)
+			}
+		}
+		var mit roaring64.ManyIntIterator64
+		mit.Initialize(other)
+		mit.NextMany(make([]uint64, 3))
+		mit.Initialize(b)
+		got := uint64(0)
+		big := make([]uint64, 211)
+		for got < n && got < 2000 {
+			c := mit.NextMany(big)
+			if c == 0 {
+				fail("#%d re-initialized ManyIntIterator64 ends after %d of %d values", x.id, got, n)
+			}
+			for j := 0; j < c; j++ {
+				if w, _ := m.Select(got + uint64(j)); big[j] != w {
+					fail("#%d re-initialized ManyIntIterator64: value %d = %d want %d", x.id, got+uint64(j), big[j], w)
+				}
+			}
+			got += uint64(c)
+		}
+	}
 	// a sequence value may be ranged over more than once (each time from the start), also after an early break
 	vseq, bseq := roaring64.Values(b), roaring64.Backward(b)
 	for pass := 0; pass < 2; pass++ {
